@@ -38,7 +38,7 @@ func init() {
 		Real:           []string{"all server handlers and background jobs, real mutexes", "thread group"},
 		Stub:           []string{"OS scheduler (yield-point scheduler in the deterministic part; the Go scheduler itself in the race part)", "socket listeners"},
 		Assumptions:    []string{"interleavings are explored at critical-section boundaries (yield sites listed in DESIGN.md appendix A); preemption inside a critical section is not a distinct behaviour under the single-mutex discipline", "data races are decided only by the non-deterministic auxiliary race-detector mode"},
-		RequiredProbes: []string{"c13.interfere.impact.prelock", "c13.interfere.migrate.prelock", "c13.interfere.stats.postlock", "c13.interfere.sync.between", "c13.interfere.srvauth.between", "c13.interfere.auth.preforward", "c13.ban-in-gap", "c13.rotate-in-gap"},
+		RequiredProbes: []string{"c13.interfere.impact.prelock", "c13.interfere.migrate.prelock", "c13.interfere.stats.postlock", "c13.interfere.sync.between", "c13.interfere.srvauth.between", "c13.interfere.auth.preforward", "c13.ban-in-gap", "c13.rotate-in-gap", "c13.stats-future-week"},
 		RequiredSites:  []string{"impact.listed", "impact.prelock", "srvauth.between", "srvauth.prenet", "sync.between", "stats.postlock", "auth.preforward", "order.prelock", "archive.file", "archive.pubkey", "migrate.checked", "migrate.prelock", "migrate.before-shift"},
 	})
 }
@@ -385,7 +385,11 @@ func (st *c13State) opReportFor(aim *Device) {
 func (st *c13State) opStats(falseNeg bool) {
 	n := st.h.N
 	res := &HTTPResult{}
-	half := st.w.C.Int("half", 2)
+	// (the third choice is the first week past the live window: refused)
+	half := st.w.C.Weighted("half", 3, 3, 1)
+	if half == 2 {
+		st.w.Probe("c13.stats-future-week")
+	}
 	archived := -1
 	if len(n.Model.Weeks) > 0 && st.w.C.Chance("archived", 1, 2) {
 		archived = st.w.C.Int("week", len(n.Model.Weeks))
